@@ -84,8 +84,10 @@ def r1_left_context(ctx, rid):
             seeds_ = [st.test for st in ast.walk(loop) if isinstance(st, (ast.If, ast.IfExp))]
             names_in_tests, work, char_read, tests = set(), list(seeds_), False, []
             seen_defs = set()
+            visited_exprs = []
             while work:
                 e = work.pop()
+                visited_exprs.append(e)
                 if reads_char(e):
                     char_read = True
                     tests.append(e)
@@ -104,6 +106,22 @@ def r1_left_context(ctx, rid):
             facts = {"searched": recv, "cut": [norm(c) for c in cuts], "carried": sorted(carried), "boundary_tests": [ast.unparse(t)[:100] for t in tests]}
             if not tests:
                 raise AnalysisError(f"{rid}: {f.qual}: boundary test of the search loop not recognised")
+            # the decision is about THIS occurrence: the searched string may enter it through single characters, slices and len() only;
+            # a predicate about the whole string (endswith / startswith / count / find / index / `x in s`) is true or false for every
+            # occurrence alike
+            whole = []
+            for t in list(seeds_) + [t_ for t_ in tests if not any(t_ is s_ for s_ in seeds_)]:
+                for x in ast.walk(t):
+                    if isinstance(x, ast.Call) and isinstance(x.func, ast.Attribute) and isinstance(x.func.value, ast.Name) and x.func.value.id == recv \
+                            and x.func.attr in ("endswith", "startswith", "count", "find", "rfind", "index", "rindex", "partition", "rpartition", "split"):
+                        whole.append(x)
+                    if isinstance(x, ast.Compare) and len(x.ops) == 1 and isinstance(x.ops[0], (ast.In, ast.NotIn)) \
+                            and isinstance(x.comparators[0], ast.Name) and x.comparators[0].id == recv:
+                        whole.append(x)
+            for wnode in whole:
+                ctx.violation(rid, f, wnode, f"the token-boundary decision for one occurrence uses `{ast.unparse(wnode)[:50]}`, a predicate about the whole of "
+                                             f"`{recv}`: it holds for every occurrence in the string alike, so an occurrence inside a longer identifier is "
+                                             f"accepted whenever the string as a whole satisfies it", facts, label=f"whole-string predicate in the boundary test of `{recv}`")
             if good:
                 ctx.ok(rid, f, cuts[0], f"the character before the cut is carried in `{good[0]}` and used by the boundary test", facts)
             else:
